@@ -11,7 +11,7 @@ CFG = dict(
         level_note="Theorems are about coq/model/HashSet.v (hand transliteration); tie = correspondence harness; "
                    "os.File semantics and uint32 overflow (>= 2^32 entries) assumed.",
         rule="exhaustive: all sequences of <=4 (quick) / <=5 (thorough) Add/Flush ops over 4 hashes x batch sizes 1..3, "
-             "each followed by flush, Has of every hash, raw file dump, reopen, dump, Has; random: 5..65 ops over a "
+             "each followed by flush, Has of every hash, raw file dump, reopen, dump, Has; long runs: 31..100 entries arriving in descending order / a big flushed table followed by smaller hashes, batch sizes 1, 3 and default; random: 5..65 ops over a "
              "hash space with first byte in {00,01,7f,ff} and 2..5 values in two tail bytes, batch sizes 0..5, reopen at "
              "random points. distinct = distinct case text; non-trivial = at least two ops before the final flush",
         trusted=["hash = big-endian N of the 16 bytes (tree coder in model/HashSet.v); file modelled as (fanout, table) "
